@@ -10,7 +10,9 @@ RULE = ('positive: M1 documents (well-formed by construction, random lexical for
         'exception under a drawn (API, scanner, namespaces) cell; negative: the same rendering with ONE well-formedness / namespace / encoding '
         'constraint broken by a mutation operator at a drawn site must give >=1 fatal error or documented exception. pyexpat must accept the positive '
         'and reject the mutant (XML 1.0) or the case is dropped. non-trivial: positive = document has a DOCTYPE, entity reference, CDATA, non-ASCII or '
-        'namespace declaration; negative = every mutant that both witnesses call not well-formed; distinct by sha1(bytes, api, scanner, ns).')
+        'namespace declaration; negative = every mutant that both witnesses call not well-formed; distinct by sha1(bytes, api, scanner, ns).  In 3 of 5 cases the '
+        'parser object has first parsed a warm-up document (an XML 1.1 document with NEL and a C0 reference, a DTD document with entities and defaulted namespace '
+        'attributes, or a malformed XML 1.1 document): the verdict on the document under test must be that of a fresh parser.')
 ASSUMPTIONS = ['pyexpat 2.5 (namespace mode when namespaces are on) is a correct XML 1.0 well-formedness witness; cases where it disagrees with the '
                'generator are dropped and counted',
                'XML 1.1 lane: no second witness; restricted to operators that are violations under every reading (wfmut.OPS_V11)',
